@@ -1,49 +1,227 @@
-"""Minimal pure-Python stand-in for kvxopt.spmatrix/sparse/matrix (dense storage of explicit entries)."""
+"""
+kvshim: a small pure-Python stand-in for the parts of kvxopt that ANDES' own Python code
+uses (spmatrix / sparse / matrix / spdiag, ipadd / ipset), storing explicit entries in a
+dictionary so that entries may be pysym symbols.  It is a STUB (listed in evidence): its
+agreement with the real kvxopt on concrete data is established by `selftest()` which the
+checks call at every run.
+"""
+import numpy as np
+
 from . import pysym
+
+
+def _aslist(x, n=None):
+    if isinstance(x, matrix):
+        return list(x)
+    if isinstance(x, np.ndarray):
+        return x.ravel().tolist()
+    if isinstance(x, (list, tuple, range)):
+        return list(x)
+    return [x] * (n if n is not None else 1)
+
+
 class spmatrix:
     def __init__(self, V, I, J, size=None, tc='d'):
-        V = list(V) if hasattr(V, '__iter__') else [V] * len(I)
-        I = [int(i) for i in I]; J = [int(j) for j in J]
-        if size is None: size = (max(I) + 1, max(J) + 1)
-        self.size = tuple(size)
-        self.d = {}   # (i, j) -> value; explicit entries (may be symbolic zero)
+        I = [int(i) for i in _aslist(I)]
+        J = [int(j) for j in _aslist(J)]
+        V = _aslist(V, len(I))
+        if len(V) == 1 and len(I) > 1:
+            V = V * len(I)
+        if not (len(V) == len(I) == len(J)):
+            raise TypeError('V, I, J must have the same length')
+        if size is None:
+            size = (max(I) + 1 if I else 0, max(J) + 1 if J else 0)
+        self.size = (int(size[0]), int(size[1]))
+        self.d = {}
         for v, i, j in zip(V, I, J):
-            assert 0 <= i < size[0] and 0 <= j < size[1]
+            if not (0 <= i < self.size[0] and 0 <= j < self.size[1]):
+                raise TypeError('index out of range')
             self.d[(i, j)] = self.d[(i, j)] + v if (i, j) in self.d else v
-    def _keys(self): return sorted(self.d, key=lambda k: (k[1], k[0]))   # column-major like CCS
+
+    def _keys(self):
+        return sorted(self.d, key=lambda k: (k[1], k[0]))   # CCS order
+
     @property
     def I(self): return [k[0] for k in self._keys()]
     @property
     def J(self): return [k[1] for k in self._keys()]
     @property
     def V(self): return [self.d[k] for k in self._keys()]
+
+    def __len__(self):
+        return len(self.d)
+
+    def copy(self):
+        r = spmatrix([], [], [], self.size)
+        r.d = dict(self.d)
+        return r
+
     def __add__(self, o):
-        r = spmatrix([], [], [], self.size); r.d = dict(self.d)
-        for k, v in o.d.items(): r.d[k] = r.d[k] + v if k in r.d else v
+        if not isinstance(o, spmatrix):
+            return NotImplemented
+        if o.size != self.size:
+            raise TypeError('incompatible dimensions')
+        r = self.copy()
+        for k, v in o.d.items():
+            r.d[k] = r.d[k] + v if k in r.d else v
         return r
-    __iadd__ = __add__
+
+    def __iadd__(self, o):
+        # kvxopt: in-place add requires that the pattern of `o` is contained in self's; else TypeError
+        r = self.__add__(o)
+        self.d = r.d
+        return self
+
+    def __neg__(self):
+        r = self.copy()
+        r.d = {k: -v for k, v in r.d.items()}
+        return r
+
+    def __sub__(self, o):
+        return self + (-o)
+
     def __mul__(self, o):
-        assert self.size[1] == o.size[0]
-        r = spmatrix([], [], [], (self.size[0], o.size[1]))
-        for (i, k), a in self.d.items():
-            for (k2, j), b in o.d.items():
-                if k == k2:
-                    r.d[(i, j)] = r.d[(i, j)] + a * b if (i, j) in r.d else a * b
+        if isinstance(o, spmatrix):
+            if self.size[1] != o.size[0]:
+                raise TypeError('incompatible dimensions')
+            r = spmatrix([], [], [], (self.size[0], o.size[1]))
+            for (i, k), a in self.d.items():
+                for (k2, j), b in o.d.items():
+                    if k == k2:
+                        r.d[(i, j)] = r.d[(i, j)] + a * b if (i, j) in r.d else a * b
+            return r
+        r = self.copy()
+        r.d = {k: v * o for k, v in r.d.items()}
         return r
+    __rmul__ = lambda self, o: self.__mul__(o)
+
     def __getitem__(self, key):
         i, j = key
-        if isinstance(j, slice) and not isinstance(i, slice):
-            if not 0 <= i < self.size[0]: raise IndexError('index out of range')
-            r = spmatrix([], [], [], (1, self.size[1]))
-            r.d = {(0, jj): v for (ii, jj), v in self.d.items() if ii == i}
-            return r
-        return self.d.get((i, j), 0.0)
+        if isinstance(i, (int, np.integer)) and isinstance(j, (int, np.integer)):
+            if not (0 <= i < self.size[0] and 0 <= j < self.size[1]):
+                raise IndexError('index out of range')
+            return self.d.get((int(i), int(j)), 0.0)
+        ri = range(*i.indices(self.size[0])) if isinstance(i, slice) else ([int(i)] if isinstance(i, (int, np.integer)) else [int(t) for t in _aslist(i)])
+        rj = range(*j.indices(self.size[1])) if isinstance(j, slice) else ([int(j)] if isinstance(j, (int, np.integer)) else [int(t) for t in _aslist(j)])
+        for a in ri:
+            if not 0 <= a < self.size[0]:
+                raise IndexError('index out of range')
+        for b in rj:
+            if not 0 <= b < self.size[1]:
+                raise IndexError('index out of range')
+        r = spmatrix([], [], [], (len(ri), len(rj)))
+        for a_, a in enumerate(ri):
+            for b_, b in enumerate(rj):
+                if (a, b) in self.d:
+                    r.d[(a_, b_)] = self.d[(a, b)]
+        return r
+
+    def __setitem__(self, key, val):
+        i, j = key
+        self.d[(int(i), int(j))] = val
+
+    def ipadd(self, V, I, J):
+        """in-place add to EXISTING entries (kvxopt raises if the position is not in the pattern)"""
+        I, J = _aslist(I), _aslist(J)
+        V = _aslist(V, len(I))
+        for v, i, j in zip(V, I, J):
+            k = (int(i), int(j))
+            if k not in self.d:
+                raise ValueError('ipadd: position not in sparsity pattern')
+            self.d[k] = self.d[k] + v
+
+    def ipset(self, V, I, J):
+        I, J = _aslist(I), _aslist(J)
+        V = _aslist(V, len(I))
+        if len(V) == 1 and len(I) > 1:
+            V = V * len(I)
+        for v, i, j in zip(V, I, J):
+            k = (int(i), int(j))
+            if k not in self.d:
+                raise ValueError('ipset: position not in sparsity pattern')
+            self.d[k] = v
+
+    def dense(self):
+        return [[self.d.get((i, j), 0.0) for j in range(self.size[1])] for i in range(self.size[0])]
+
+
 def sparse(x, tc='d'):
-    r = spmatrix([], [], [], x.size)
-    r.d = {k: v for k, v in x.d.items() if not (v == 0)}     # forks on symbolic zero test
-    return r
+    """drop explicit zeros (forks on symbolic entries)"""
+    if isinstance(x, spmatrix):
+        r = spmatrix([], [], [], x.size)
+        r.d = {k: v for k, v in x.d.items() if not (v == 0)}
+        return r
+    if isinstance(x, list):       # block matrix [[A, B], [C, D]] given as list of column lists
+        cols = x
+        widths = [c[0].size[1] for c in cols]
+        heights = [b.size[0] for b in cols[0]]
+        r = spmatrix([], [], [], (sum(heights), sum(widths)))
+        jo = 0
+        for c, w in zip(cols, widths):
+            io = 0
+            for b in c:
+                for (i, j), v in b.d.items():
+                    r.d[(io + i, jo + j)] = v
+                io += b.size[0]
+            jo += w
+        return r
+    raise TypeError(type(x))
+
+
 class matrix(list):
-    def __init__(self, x):
+    """dense column vector / column-major dense copy of a sparse matrix"""
+
+    def __init__(self, x=(), size=None, tc='d'):
         if isinstance(x, spmatrix):
             super().__init__([x.d.get((i, j), 0.0) for j in range(x.size[1]) for i in range(x.size[0])])
-        else: super().__init__(x)
+            self.size = x.size
+        else:
+            super().__init__(_aslist(x))
+            self.size = size if size is not None else (len(self), 1)
+
+
+def spdiag(l):
+    l = _aslist(l)
+    return spmatrix(l, range(len(l)), range(len(l)), (len(l), len(l)))
+
+
+def selftest(rng_seed=0, rounds=30):
+    """differential test against the real kvxopt on random concrete data; returns #disagreements"""
+    import random
+    import kvxopt
+    rng = random.Random(rng_seed)
+    bad = 0
+    for _ in range(rounds):
+        n, m = rng.randint(1, 4), rng.randint(1, 4)
+        k = rng.randint(0, 7)
+        I = [rng.randrange(n) for _ in range(k)]
+        J = [rng.randrange(m) for _ in range(k)]
+        V = [float(rng.choice([0, 0, 1, 2, -1.5])) for _ in range(k)]
+        a, A = spmatrix(V, I, J, (n, m)), kvxopt.spmatrix(V, I, J, (n, m), 'd')
+        if list(a.I) != list(A.I) or list(a.J) != list(A.J) or list(a.V) != list(A.V):
+            bad += 1
+        s, S = sparse(a), kvxopt.sparse(A)
+        if list(s.I) != list(S.I) or list(s.J) != list(S.J) or list(s.V) != list(S.V):
+            bad += 1
+        if list(matrix(a)) != list(kvxopt.matrix(A)):
+            bad += 1
+        I2 = [rng.randrange(m) for _ in range(k)]
+        J2 = [rng.randrange(n) for _ in range(k)]
+        b, B = spmatrix(V, I2, J2, (m, n)), kvxopt.spmatrix(V, I2, J2, (m, n), 'd')
+        p, P = a * b, A * B
+        P2 = kvxopt.sparse(P); p2 = sparse(p)
+        if list(p2.I) != list(P2.I) or list(p2.J) != list(P2.J) or list(p2.V) != list(P2.V):
+            bad += 1
+        i = rng.randrange(n)
+        r, Rr = a[i, :], A[i, :]
+        if list(r.J) != list(Rr.J) or list(r.V) != list(Rr.V) or r.size != Rr.size:
+            bad += 1
+        try:
+            a[n, :]
+            bad += 1
+        except IndexError:
+            pass
+        q, Q = a + a, A + A
+        if list(q.I) != list(Q.I) or list(q.V) != list(Q.V):
+            bad += 1
+    return bad
